@@ -58,6 +58,41 @@ Proof.
   - unfold p_neg, p_scal in Hk. rewrite !keys_scale in Hk. cbn in Hk. destruct Hk as [<-|[]]. lia.
 Qed.
 
+(** the dual point recorded by a Bregman step only mentions the leaves of its two operands *)
+Lemma keys_below_breg n (sx0 g : pdict) gamma :
+  keys_below n sx0 = true -> keys_below n g = true -> keys_below n (breg_dual sx0 g gamma) = true.
+Proof.
+  intros Hs Hg. apply keys_below_iff. intros k Hk. unfold breg_dual in Hk. apply keys_prune_incl in Hk.
+  unfold p_sub, p_add in Hk. apply keys_prune_incl in Hk. apply keys_pmerge_incl in Hk as [Hk|Hk].
+  - exact (proj1 (keys_below_iff n sx0) Hs k Hk).
+  - unfold p_neg, p_scal in Hk. rewrite !keys_scale in Hk. exact (proj1 (keys_below_iff n g) Hg k Hk).
+Qed.
+
+(** the point recorded by an inexact proximal step 'PD_gapII' (e is leaf n, gx leaf S n), the (sub)gradient recorded by
+    'PD_gapIII' (x is leaf n) *)
+Lemma keys_below_ip2 n (x0 : pdict) gamma :
+  keys_below n x0 = true -> keys_below (S (S n)) (ip2_point n x0 gamma) = true.
+Proof.
+  intros Hx. apply keys_below_iff. intros k Hk. unfold ip2_point in Hk. apply keys_prune_incl in Hk.
+  unfold p_add in Hk. apply keys_prune_incl in Hk. apply keys_pmerge_incl in Hk as [Hk|Hk].
+  - unfold p_sub, p_add in Hk. apply keys_prune_incl in Hk. apply keys_pmerge_incl in Hk as [Hk|Hk].
+    + apply (proj1 (keys_below_iff n x0) Hx) in Hk. lia.
+    + unfold p_neg, p_scal in Hk. rewrite !keys_scale in Hk. cbn in Hk. destruct Hk as [<-|[]]. lia.
+  - cbn in Hk. destruct Hk as [<-|[]]. lia.
+Qed.
+Lemma keys_below_ip3 n (x0 : pdict) gamma :
+  keys_below n x0 = true -> keys_below (S n) (ip3_grad n x0 gamma) = true.
+Proof.
+  intros Hx. apply keys_below_iff. intros k Hk. unfold ip3_grad in Hk. apply keys_prune_incl in Hk.
+  unfold p_div, p_scal in Hk. rewrite keys_scale in Hk.
+  unfold p_sub, p_add in Hk. apply keys_prune_incl in Hk. apply keys_pmerge_incl in Hk as [Hk|Hk].
+  - apply (proj1 (keys_below_iff n x0) Hx) in Hk. lia.
+  - unfold p_neg, p_scal in Hk. rewrite !keys_scale in Hk. cbn in Hk. destruct Hk as [<-|[]]. lia.
+Qed.
+
+Lemma ltb_true a b : (a < b)%nat -> Nat.ltb a b = true.
+Proof. intros H. apply Nat.ltb_lt. exact H. Qed.
+
 Section Method.
   Context {E : ips}.
   Variable W : @world E.
@@ -138,7 +173,8 @@ Section Method.
     (forall i, (i < m_np s)%nat -> fst (wstep W vs s o) i = fst vs i) /\
     (forall i, (i < m_ne s)%nat -> snd (wstep W vs s o) i = snd vs i).
   Proof.
-    destruct o as [|f p|f|f p gamma|f dir|f p rel eps|f x0 dirs]; cbn [wstep fst snd]; split; intros i Hi; try reflexivity;
+    destruct o as [|f p|f|f p gamma|f dir|f p rel eps|f x0 dirs|f p|h gx0 sx0 gamma|h f sx0 gamma|f x0 gamma [| |]];
+      cbn [wstep fst snd]; split; intros i Hi; try reflexivity;
       repeat (rewrite upd_other by lia); reflexivity.
   Qed.
 
@@ -152,7 +188,7 @@ Section Method.
   Qed.
 
   Lemma mstep_counters s o : (m_np s <= m_np (mstep s o))%nat /\ (m_ne s <= m_ne (mstep s o))%nat.
-  Proof. destruct o; cbn; lia. Qed.
+  Proof. destruct o as [| | | | | | | | | |? ? ? []]; cbn; lia. Qed.
 
   Lemma keys_below_neg n (dir : pdict) :
     keys_below n dir = true -> keys_below (S n) (prune (p_neg dir)) = true.
@@ -180,6 +216,50 @@ Section Method.
     rewrite inner_add_l, !inner_scal_l, inner_zero_l, inner_sub_l. field. lra.
   Qed.
 
+  (** the value of the dual point recorded by a Bregman step *)
+  Lemma breg_dual_value (rho : nat -> E) (sx0 g : pdict) gamma :
+    NoDupKeys nat sx0 -> NoDupKeys nat g ->
+    veq (evalP rho (breg_dual sx0 g gamma)) (vsub (evalP rho sx0) (vscal (Q2R gamma) (evalP rho g))).
+  Proof.
+    intros Hs Hg w. unfold breg_dual. rewrite inner_evalP, dsum_prune, <- inner_evalP.
+    rewrite (evalP_sub rho sx0 (p_scal gamma g) Hs) by (apply pND_scal; exact Hg).
+    rewrite !inner_sub_l. rewrite (evalP_scal rho gamma g w). reflexivity.
+  Qed.
+
+  Lemma ip2_point_value (rho : nat -> E) n (x0 : pdict) gamma :
+    NoDupKeys nat x0 ->
+    veq (evalP rho (ip2_point n x0 gamma)) (vadd (vsub (evalP rho x0) (vscal (Q2R gamma) (rho (S n)))) (rho n)).
+  Proof.
+    intros Hnd w. unfold ip2_point. rewrite inner_evalP, dsum_prune, <- inner_evalP.
+    assert (Hs : forall k, NoDupKeys nat [(k, 1%Q)]) by (intros k; unfold NoDupKeys, keys; cbn; repeat constructor; tauto).
+    rewrite (evalP_add rho (p_sub x0 (p_scal gamma [(S n, 1%Q)])) [(n, 1%Q)]
+               (pND_sub _ _ Hnd (pND_scal gamma _ (Hs (S n)))) (Hs n) w).
+    rewrite inner_add_l. rewrite (evalP_sub rho x0 (p_scal gamma [(S n, 1%Q)]) Hnd (pND_scal gamma _ (Hs (S n))) w).
+    rewrite inner_sub_l. rewrite (evalP_scal rho gamma [(S n, 1%Q)] w). rewrite inner_scal_l.
+    cbn [evalP]. repeat first [rewrite inner_add_l | rewrite inner_sub_l | rewrite inner_scal_l | rewrite inner_zero_l]; rewrite ?Q2R_one; lra.
+  Qed.
+
+  Lemma qpos_nz gamma : 0 < Q2R gamma -> ~ (gamma == 0)%Q.
+  Proof. intros Hg Hz. apply Qeq_eqR in Hz. rewrite RMicromega.Q2R_0 in Hz. lra. Qed.
+
+  Lemma ip3_grad_value (rho : nat -> E) n (x0 : pdict) gamma :
+    NoDupKeys nat x0 -> 0 < Q2R gamma ->
+    veq (evalP rho (ip3_grad n x0 gamma)) (vscal (1 / Q2R gamma) (vsub (evalP rho x0) (rho n))).
+  Proof.
+    intros Hnd Hg w. unfold ip3_grad. rewrite inner_evalP, dsum_prune, <- inner_evalP.
+    assert (Hs : NoDupKeys nat [(n, 1%Q)]) by (unfold NoDupKeys, keys; cbn; repeat constructor; tauto).
+    rewrite (evalP_div rho (p_sub x0 [(n, 1%Q)]) gamma (qpos_nz gamma Hg) w). rewrite !inner_scal_l.
+    rewrite (evalP_sub rho x0 [(n, 1%Q)] Hnd Hs w). rewrite !inner_sub_l.
+    cbn [evalP]. repeat first [rewrite inner_add_l | rewrite inner_sub_l | rewrite inner_scal_l | rewrite inner_zero_l]; rewrite ?Q2R_one; lra.
+  Qed.
+
+  Ltac upd_simpl := repeat first [rewrite upd_same | rewrite upd_other by lia].
+
+  Lemma leaf_veq (rho : nat -> E) k : veq (evalP rho [(k, 1%Q)]) (rho k).
+  Proof. intros w. cbn [evalP]. rewrite inner_add_l, inner_scal_l, inner_zero_l, Q2R_one. lra. Qed.
+  Lemma leaf_val (rho : nat -> E) (phi : nat -> R) k : evalE rho phi [(KF k, 1%Q)] = phi k.
+  Proof. cbn [evalE evalK]. rewrite Q2R_one. lra. Qed.
+
   Lemma Inv_step s vs o :
     Inv s vs -> op_wf s o = true -> step_ok W o = true ->
     Inv (mstep s o) (wstep W vs s o).
@@ -193,7 +273,8 @@ Section Method.
     { intros f0 t0 Hin0. destruct (HI f0 t0 Hin0) as [Hb Hg]. split.
       - exact (sample_below_mono _ _ _ _ t0 Hc1 Hc2 Hb).
       - rewrite (sample_at_agree (fst vs) _ (snd vs) _ _ _ t0 Hb Hr Hp). exact Hg. }
-    destruct o as [|g p|g|g p gamma|g dir|g p rel eps|g x0 dirs]; cbn [mstep m_samples op_wf step_ok] in Hin, Hwf, Hpx.
+    destruct o as [|g p|g|g p gamma|g dir|g p rel eps|g x0 dirs|g p|h gx0 sx0 gamma|h g sx0 gamma|g x0 gamma opt];
+      cbn [mstep m_samples op_wf step_ok] in Hin, Hwf, Hpx.
     - apply Hold, Hin.
     - apply in_app_or in Hin as [Hin|[Heq|[]]]; [apply Hold, Hin|].
       injection Heq as <- <-. split.
@@ -288,6 +369,118 @@ Section Method.
         * apply (Gen_veq W g x (fst (orc W g x))); [apply orc_genuine|].
           intros w. rewrite inner_add_l, inner_scal_l, inner_zero_l. lra.
         * intros w. rewrite inner_add_l, inner_scal_l, inner_zero_l. lra.
+    - (* MEpsSub *)
+      apply andb_prop in Hwf as [Hk Hndb].
+      set (x := evalP (fst vs) p).
+      destruct (epssub_spec W g x) as [Hgen _].
+      assert (Hpv : evalP (fst (wstep W vs s (MEpsSub g p))) p = x).
+      { apply (evalP_agree (fst vs) _ (m_np s) p Hk). exact Hr. }
+      apply in_app_or in Hin as [Hin|[Heq|[Heq|[]]]]; [apply Hold, Hin| |]; injection Heq as <- <-; split.
+      + unfold sample_below. cbn [mstep m_np m_ne].
+        rewrite (keys_below_mono (m_np s) (S (S (S (m_np s)))) p) by (try lia; exact Hk).
+        unfold keys_below, ekeys_below. cbn [forallb ekey_below]. rewrite !ltb_true by lia. reflexivity.
+      + unfold sample_at. rewrite Hpv, leaf_val. cbn [wstep fst snd]. fold x. upd_simpl.
+        apply (Gen_veq W g x (fst (orc W g x))); [apply orc_genuine|].
+        apply veq_sym. eapply veq_trans; [apply leaf_veq|]. upd_simpl. apply veq_refl.
+      + unfold sample_below. cbn [mstep m_np m_ne].
+        unfold keys_below, ekeys_below. cbn [forallb ekey_below]. rewrite !ltb_true by lia. reflexivity.
+      + unfold sample_at. rewrite leaf_val. cbn [wstep fst snd]. fold x. upd_simpl.
+        apply (Gen_xveq W g (fst (snd (epssub W g x)))).
+        * apply (Gen_veq W g _ (fst (fst (epssub W g x)))); [exact Hgen|].
+          apply veq_sym. eapply veq_trans; [apply leaf_veq|]. upd_simpl. apply veq_refl.
+        * apply veq_sym. eapply veq_trans; [apply leaf_veq|]. upd_simpl. apply veq_refl.
+    - (* MBregGrad *)
+      apply andb_prop in Hwf as [Hwf Hnds]. apply andb_prop in Hwf as [Hwf Hks]. apply andb_prop in Hwf as [Hkg Hndg].
+      apply in_app_or in Hin as [Hin|[Heq|[]]]; [apply Hold, Hin|]. injection Heq as <- <-. split.
+      + unfold sample_below. cbn [mstep m_np m_ne].
+        rewrite (keys_below_mono (m_np s) (S (m_np s)) _ (Nat.le_succ_diag_r _) (keys_below_breg (m_np s) sx0 gx0 gamma Hks Hkg)).
+        unfold keys_below, ekeys_below. cbn [forallb ekey_below]. rewrite !ltb_true by lia. reflexivity.
+      + unfold sample_at. rewrite leaf_val. cbn [wstep fst snd].
+        set (sd := vsub (evalP (fst vs) sx0) (vscal (Q2R gamma) (evalP (fst vs) gx0))). upd_simpl.
+        apply (Gen_xveq W h (fst (mirror W h sd))).
+        * apply (Gen_veq W h _ sd); [apply mirror_genuine; exact Hpx|].
+          apply veq_sym. eapply veq_trans;
+            [apply breg_dual_value; apply nodupb_NoDup; assumption|].
+          rewrite (evalP_agree (fst vs) (upd (fst vs) (m_np s) _) (m_np s) sx0 Hks) by (intros i Hi; apply upd_other; lia).
+          rewrite (evalP_agree (fst vs) (upd (fst vs) (m_np s) _) (m_np s) gx0 Hkg) by (intros i Hi; apply upd_other; lia).
+          apply veq_refl.
+        * apply veq_sym. eapply veq_trans; [apply leaf_veq|]. upd_simpl. apply veq_refl.
+    - (* MBregProx *)
+      apply andb_prop in Hwf as [Hwf Hpos]. apply andb_prop in Hwf as [Hks Hnds].
+      pose proof (qpos_pos gamma Hpos) as Hg.
+      set (s0 := evalP (fst vs) sx0).
+      destruct (bprox_genuine W h g (Q2R gamma) s0 Hpx Hg) as [Hgf Hgh].
+      apply in_app_or in Hin as [Hin|[Heq|[Heq|[]]]]; [apply Hold, Hin| |]; injection Heq as <- <-; split.
+      + unfold sample_below. cbn [mstep m_np m_ne].
+        unfold keys_below, ekeys_below. cbn [forallb ekey_below]. rewrite !ltb_true by lia. reflexivity.
+      + unfold sample_at. rewrite leaf_val. cbn [wstep fst snd]. fold s0. upd_simpl.
+        apply (Gen_xveq W g (fst (fst (bprox W h g (Q2R gamma) s0)))).
+        * apply (Gen_veq W g _ (snd (fst (bprox W h g (Q2R gamma) s0)))); [exact Hgf|].
+          apply veq_sym. eapply veq_trans; [apply leaf_veq|]. upd_simpl. apply veq_refl.
+        * apply veq_sym. eapply veq_trans; [apply leaf_veq|]. upd_simpl. apply veq_refl.
+      + unfold sample_below. cbn [mstep m_np m_ne].
+        assert (Hkl : keys_below (S (S (m_np s))) [(S (m_np s), 1%Q)] = true).
+        { unfold keys_below. cbn [forallb]. rewrite ltb_true by lia. reflexivity. }
+        rewrite (keys_below_breg (S (S (m_np s))) sx0 [(S (m_np s), 1%Q)] gamma
+                   (keys_below_mono (m_np s) (S (S (m_np s))) sx0 (Nat.le_trans _ _ _ (Nat.le_succ_diag_r _) (Nat.le_succ_diag_r _)) Hks) Hkl).
+        unfold keys_below, ekeys_below. cbn [forallb ekey_below]. rewrite !ltb_true by lia. reflexivity.
+      + unfold sample_at. rewrite leaf_val. cbn [wstep fst snd]. fold s0. upd_simpl.
+        apply (Gen_xveq W h (fst (fst (bprox W h g (Q2R gamma) s0)))).
+        * apply (Gen_veq W h _ _ _ _ Hgh).
+          apply veq_sym. eapply veq_trans;
+            [apply breg_dual_value; [apply nodupb_NoDup; exact Hnds|unfold NoDupKeys, keys; cbn; repeat constructor; tauto]|].
+          apply veq_sub.
+          -- rewrite (evalP_agree (fst vs) _ (m_np s) sx0 Hks)
+               by (intros i Hi; rewrite upd_other by lia; apply upd_other; lia). apply veq_refl.
+          -- apply veq_scal. eapply veq_trans; [apply leaf_veq|]. upd_simpl. apply veq_refl.
+        * apply veq_sym. eapply veq_trans; [apply leaf_veq|]. upd_simpl. apply veq_refl.
+    - (* MInexactProx *)
+      apply andb_prop in Hwf as [Hwf Hpos]. apply andb_prop in Hwf as [Hk Hndb].
+      pose proof (qpos_pos gamma Hpos) as Hg.
+      assert (Hnd : NoDupKeys nat x0) by (apply nodupb_NoDup; exact Hndb).
+      set (x0v := evalP (fst vs) x0).
+      pose proof (iprox_spec W g opt (Q2R gamma) x0v Hg) as Hsp. cbn zeta in Hsp.
+      destruct opt; destruct Hsp as [Hgx Hsp]; cbn [mstep m_samples] in Hin.
+      + destruct Hsp as [Hgw _].
+        apply in_app_or in Hin as [Hin|[Heq|[Heq|[]]]]; [apply Hold, Hin| |]; injection Heq as <- <-; split.
+        * unfold sample_below. cbn [mstep m_np m_ne].
+          unfold keys_below, ekeys_below. cbn [forallb ekey_below]. rewrite !ltb_true by lia. reflexivity.
+        * unfold sample_at. rewrite leaf_val. cbn [wstep fst snd]. fold x0v. upd_simpl.
+          eapply Gen_xveq; [eapply Gen_veq; [exact Hgw|]|];
+            (apply veq_sym; eapply veq_trans; [apply leaf_veq|]; upd_simpl; apply veq_refl).
+        * unfold sample_below. cbn [mstep m_np m_ne].
+          unfold keys_below, ekeys_below. cbn [forallb ekey_below]. rewrite !ltb_true by lia. reflexivity.
+        * unfold sample_at. rewrite leaf_val. cbn [wstep fst snd]. fold x0v. upd_simpl.
+          eapply Gen_xveq; [eapply Gen_veq; [exact Hgx|]|];
+            (apply veq_sym; eapply veq_trans; [apply leaf_veq|]; upd_simpl; apply veq_refl).
+      + apply in_app_or in Hin as [Hin|[Heq|[]]]; [apply Hold, Hin|]. injection Heq as <- <-. split.
+        * unfold sample_below. cbn [mstep m_np m_ne]. rewrite (keys_below_ip2 (m_np s) x0 gamma Hk).
+          unfold keys_below, ekeys_below. cbn [forallb ekey_below]. rewrite !ltb_true by lia. reflexivity.
+        * unfold sample_at. rewrite leaf_val. cbn [wstep fst snd]. fold x0v. upd_simpl.
+          eapply Gen_xveq; [eapply Gen_veq; [exact Hgx|]|].
+          -- apply veq_sym. eapply veq_trans; [apply leaf_veq|]. upd_simpl. apply veq_refl.
+          -- apply veq_sym. eapply veq_trans; [apply (ip2_point_value _ (m_np s) x0 gamma Hnd)|].
+             rewrite (evalP_agree (fst vs) _ (m_np s) x0 Hk)
+               by (intros i Hi; rewrite upd_other by lia; apply upd_other; lia).
+             fold x0v. upd_simpl. intros w.
+             repeat first [rewrite inner_add_l | rewrite inner_sub_l | rewrite inner_scal_l | rewrite inner_zero_l]; rewrite ?Q2R_one; lra.
+      + destruct Hsp as [Hgw _].
+        apply in_app_or in Hin as [Hin|[Heq|[Heq|[]]]]; [apply Hold, Hin| |]; injection Heq as <- <-; split.
+        * unfold sample_below. cbn [mstep m_np m_ne].
+          unfold keys_below, ekeys_below. cbn [forallb ekey_below]. rewrite !ltb_true by lia. reflexivity.
+        * unfold sample_at. rewrite leaf_val. cbn [wstep fst snd]. fold x0v. upd_simpl.
+          eapply Gen_xveq; [eapply Gen_veq; [exact Hgx|]|];
+            (apply veq_sym; eapply veq_trans; [apply leaf_veq|]; upd_simpl; apply veq_refl).
+        * unfold sample_below. cbn [mstep m_np m_ne].
+          rewrite (keys_below_mono (S (m_np s)) (S (S (S (m_np s)))) _ ltac:(lia) (keys_below_ip3 (m_np s) x0 gamma Hk)).
+          unfold keys_below, ekeys_below. cbn [forallb ekey_below]. rewrite !ltb_true by lia. reflexivity.
+        * unfold sample_at. rewrite leaf_val. cbn [wstep fst snd]. fold x0v. upd_simpl.
+          eapply Gen_xveq; [eapply Gen_veq; [exact Hgw|]|].
+          -- apply veq_sym. eapply veq_trans; [apply (ip3_grad_value _ (m_np s) x0 gamma Hnd Hg)|].
+             rewrite (evalP_agree (fst vs) _ (m_np s) x0 Hk)
+               by (intros i Hi; rewrite !upd_other by lia; reflexivity).
+             fold x0v. upd_simpl. apply veq_refl.
+          -- apply veq_sym. eapply veq_trans; [apply leaf_veq|]. upd_simpl. apply veq_refl.
   Qed.
 
   (** Every recorded sample of a well-formed program is a genuine sample of its function in the
@@ -370,47 +563,147 @@ Section Method.
     rewrite He, RMicromega.Q2R_0. tauto.
   Qed.
 
+  (** the epsilon-subgradient constraint, whatever the valuation: g0 is leaf n, y leaf S (S n); f0, epsilon, fy are
+      the value leaves e, S e, S (S e) *)
+  Lemma epssub_cons_holds (rho : nat -> E) (phi : nat -> R) n e (p : pdict) :
+    NoDupKeys nat p ->
+    (holds rho phi (epssub_cons n e p) <->
+     phi e + (inner (rho n) (rho (S (S n))) - phi (S (S e))) - inner (rho n) (evalP rho p) <= phi (S e)).
+  Proof.
+    intros Hnd. unfold epssub_cons.
+    assert (Hvp : forall v, NoDupKeys nat (epssub_vp n p v)).
+    { intros v. unfold epssub_vp. destruct v as [|[|v]]; [exact Hnd| |]; unfold NoDupKeys, keys; cbn; repeat constructor; tauto. }
+    assert (Hvx : forall v, NoDupKeys ekey (epssub_vx e v)).
+    { intros v. unfold epssub_vx. destruct v as [|[|v]]; unfold NoDupKeys, keys; cbn; repeat constructor; tauto. }
+    rewrite (compileC_holds rho phi (fun _ => 0%Q) (epssub_vp n p) (epssub_vx e) Hvp Hvx) by (cbn; tauto).
+    cbn [denoteC denoteX denoteP sdenote epssub_formula epssub_vp epssub_vx].
+    rewrite !leaf_val.
+    rewrite (veq_inner _ _ _ _ (leaf_veq rho n) (leaf_veq rho (S (S n)))).
+    rewrite (veq_inner _ _ _ _ (leaf_veq rho n) (veq_refl (evalP rho p))).
+    tauto.
+  Qed.
+
+  (** the accuracy constraints of an inexact proximal step, whatever the valuation.  'PD_gapI': v, w, x are the leaves
+      n, S n, S (S n); fw, fx, eps_var the value leaves e, S e, S (S e).  'PD_gapII': the error e is leaf n, eps_var the
+      value leaf S e.  'PD_gapIII': x, w are the leaves n, S (S n), v is (x0 - x) / gamma; value leaves as in I. *)
+  Definition ip_meaning (opt : ipopt) (rho : nat -> E) (phi : nat -> R) (n e : nat) (x0 : pdict) (gamma : Q) : Prop :=
+    match opt with
+    | PDgapI =>
+        nrm2 (vadd (vsub (rho (S (S n))) (evalP rho x0)) (vscal (Q2R gamma) (rho n))) / 2
+        + Q2R gamma * (phi (S e) - phi e - inner (rho n) (vsub (rho (S (S n))) (rho (S n)))) <= phi (S (S e))
+    | PDgapII => nrm2 (rho n) / 2 <= phi (S e)
+    | PDgapIII =>
+        Q2R gamma * (phi (S e) - phi e
+                     - inner (vscal (1 / Q2R gamma) (vsub (evalP rho x0) (rho n))) (vsub (rho n) (rho (S (S n)))))
+        <= phi (S (S e))
+    end.
+
+  Lemma Q2R_two : Q2R 2 = 2. Proof. unfold Q2R; cbn; lra. Qed.
+
+  Lemma ip_cons_holds opt (rho : nat -> E) (phi : nat -> R) n e (x0 : pdict) gamma :
+    NoDupKeys nat x0 -> 0 < Q2R gamma ->
+    (holds rho phi (ip_cons opt n e x0 gamma) <-> ip_meaning opt rho phi n e x0 gamma).
+  Proof.
+    intros Hnd Hg. unfold ip_cons.
+    assert (Hs : forall k, NoDupKeys nat [(k, 1%Q)]) by (intros k; unfold NoDupKeys, keys; cbn; repeat constructor; tauto).
+    assert (Hsx : forall k, NoDupKeys ekey [(KF k, 1%Q)]) by (intros k; unfold NoDupKeys, keys; cbn; repeat constructor; tauto).
+    assert (Hvp : forall v, NoDupKeys nat (ip_vp opt n x0 gamma v)).
+    { intros v. destruct opt; cbn [ip_vp].
+      - destruct v as [|[|[|[|v]]]]; [exact Hnd|apply Hs..].
+      - apply Hs.
+      - destruct v as [|[|[|v]]]; [exact Hnd| |apply Hs..].
+        unfold ip3_grad. apply NoDupKeys_prune. apply pND_div. apply pND_sub; [exact Hnd|apply Hs]. }
+    assert (Hvx : forall v, NoDupKeys ekey (ip_vx opt e v)).
+    { intros v. destruct opt; cbn [ip_vx]; [destruct v as [|[|v]]| |destruct v as [|[|v]]]; apply Hsx. }
+    assert (H2 : Q2R 2 <> 0) by (rewrite Q2R_two; lra).
+    assert (Hn1 : forall a a' : E, veq a a' -> inner a a = nrm2 a') by (intros a a' Ha; unfold nrm2; apply veq_inner; exact Ha).
+    destruct opt; cbn [ip_formula ip_meaning].
+    - rewrite (compileC_holds rho phi (fun _ => gamma) (ip_vp PDgapI n x0 gamma) (ip_vx PDgapI e) Hvp Hvx)
+        by (cbn; tauto).
+      cbn [denoteC denoteX denoteP sdenote ip_eps_sub ip_vp ip_vx]. rewrite !leaf_val, Q2R_two.
+      rewrite (Hn1 _ (vadd (vsub (rho (S (S n))) (evalP rho x0)) (vscal (Q2R gamma) (rho n))))
+        by (apply veq_add; [apply veq_sub; [apply leaf_veq|apply veq_refl]|apply veq_scal, leaf_veq]).
+      rewrite (veq_inner _ _ _ _ (leaf_veq rho n) (veq_sub _ _ _ _ (leaf_veq rho (S (S n))) (leaf_veq rho (S n)))).
+      tauto.
+    - rewrite (compileC_holds rho phi (fun _ => gamma) (ip_vp PDgapII n x0 gamma) (ip_vx PDgapII e) Hvp Hvx)
+        by (cbn; tauto).
+      cbn [denoteC denoteX denoteP sdenote ip_vp ip_vx]. rewrite !leaf_val, Q2R_two.
+      rewrite (Hn1 _ (rho n)) by apply leaf_veq.
+      tauto.
+    - rewrite (compileC_holds rho phi (fun _ => gamma) (ip_vp PDgapIII n x0 gamma) (ip_vx PDgapIII e) Hvp Hvx)
+        by (cbn; tauto).
+      cbn [denoteC denoteX denoteP sdenote ip_eps_sub ip_vp ip_vx]. rewrite !leaf_val.
+      rewrite (veq_inner _ _ _ _ (ip3_grad_value rho n x0 gamma Hnd Hg)
+                 (veq_sub _ _ _ _ (leaf_veq rho n) (leaf_veq rho (S (S n))))).
+      tauto.
+  Qed.
+
+  Definition ip_np (opt : ipopt) : nat := match opt with PDgapI => 4 | PDgapII => 2 | PDgapIII => 3 end.
+  Definition ip_ne (opt : ipopt) : nat := match opt with PDgapII => 2 | _ => 3 end.
+
   (** where a recorded constraint comes from, and why it holds: the accuracy constraint of an inexact step
       between two existing leaves whose values are within the accuracy, or an orthogonality constraint of a line
       search whose leaves and (earlier) points satisfy it *)
-  Definition cons_src (np : nat) (rho : nat -> E) (c : edict * sense) : Prop :=
+  Definition cons_src (np ne : nat) (rho : nat -> E) (phi : nat -> R) (c : edict * sense) : Prop :=
     (exists n rel eps, (S n < np)%nat /\ c = inexact_cons n rel eps /\
        nrm2 (vsub (rho n) (rho (S n))) <= Q2R eps ^ 2 * (if rel then nrm2 (rho n) else 1))
     \/ (exists n x0, (S n < np)%nat /\ c = ls_cons0 n x0 /\ keys_below n x0 = true /\ NoDupKeys nat x0 /\
            inner (vsub (rho n) (evalP rho x0)) (rho (S n)) = 0)
     \/ (exists n d, (S n < np)%nat /\ c = ls_cons n d /\ keys_below n d = true /\ NoDupKeys nat d /\
-           inner (evalP rho d) (rho (S n)) = 0).
+           inner (evalP rho d) (rho (S n)) = 0)
+    \/ (exists n e p, (S (S n) < np)%nat /\ (S (S e) < ne)%nat /\ c = epssub_cons n e p /\ keys_below n p = true /\
+           NoDupKeys nat p /\
+           phi e + (inner (rho n) (rho (S (S n))) - phi (S (S e))) - inner (rho n) (evalP rho p) <= phi (S e))
+    \/ (exists opt n e x0 gamma, (n + ip_np opt <= np)%nat /\ (e + ip_ne opt <= ne)%nat /\ c = ip_cons opt n e x0 gamma /\
+           keys_below n x0 = true /\ NoDupKeys nat x0 /\ 0 < Q2R gamma /\ ip_meaning opt rho phi n e x0 gamma).
 
-  Lemma cons_src_holds np rho phi c : cons_src np rho c -> holds rho phi c.
+  Lemma cons_src_holds np ne rho phi c : cons_src np ne rho phi c -> holds rho phi c.
   Proof.
-    intros [(n & rel & eps & _ & -> & Hb)|[(n & x0 & _ & -> & _ & Hnd & H)|(n & d & _ & -> & _ & Hnd & H)]].
+    intros [(n & rel & eps & _ & -> & Hb)|[(n & x0 & _ & -> & _ & Hnd & H)|[(n & d & _ & -> & _ & Hnd & H)
+           |[(n & e & p & _ & _ & -> & _ & Hnd & H)|(opt & n & e & x0 & gamma & _ & _ & -> & _ & Hnd & Hg & H)]]]].
     - apply inexact_cons_holds. exact Hb.
     - apply (ls_cons0_holds rho phi n x0 Hnd). exact H.
     - apply (ls_cons_holds rho phi n d Hnd). exact H.
+    - apply (epssub_cons_holds rho phi n e p Hnd). exact H.
+    - apply (ip_cons_holds opt rho phi n e x0 gamma Hnd Hg). exact H.
   Qed.
 
-  Lemma cons_src_agree np np' rho rho' c :
-    (np <= np')%nat -> (forall i, (i < np)%nat -> rho' i = rho i) -> cons_src np rho c -> cons_src np' rho' c.
+  Lemma cons_src_agree np np' ne ne' rho rho' phi phi' c :
+    (np <= np')%nat -> (ne <= ne')%nat -> (forall i, (i < np)%nat -> rho' i = rho i) ->
+    (forall i, (i < ne)%nat -> phi' i = phi i) -> cons_src np ne rho phi c -> cons_src np' ne' rho' phi' c.
   Proof.
-    intros Hle Hag [(n & rel & eps & Hn & Hc & Hb)|[(n & x0 & Hn & Hc & Hk & Hnd & H)|(n & d & Hn & Hc & Hk & Hnd & H)]].
+    intros Hle Hle' Hag Hagp [(n & rel & eps & Hn & Hc & Hb)|[(n & x0 & Hn & Hc & Hk & Hnd & H)|[(n & d & Hn & Hc & Hk & Hnd & H)
+           |[(n & e & p & Hn & He & Hc & Hk & Hnd & H)
+            |(opt & n & e & x0 & gamma & Hn & He & Hc & Hk & Hnd & Hg & H)]]]].
     - left. exists n, rel, eps. split; [lia|]. split; [exact Hc|]. rewrite !Hag by lia. exact Hb.
     - right. left. exists n, x0. split; [lia|]. split; [exact Hc|]. split; [exact Hk|]. split; [exact Hnd|].
       rewrite !Hag by lia. rewrite (evalP_agree rho rho' n x0 Hk) by (intros i Hi; apply Hag; lia). exact H.
-    - right. right. exists n, d. split; [lia|]. split; [exact Hc|]. split; [exact Hk|]. split; [exact Hnd|].
+    - right. right. left. exists n, d. split; [lia|]. split; [exact Hc|]. split; [exact Hk|]. split; [exact Hnd|].
       rewrite !Hag by lia. rewrite (evalP_agree rho rho' n d Hk) by (intros i Hi; apply Hag; lia). exact H.
+    - right. right. right. left. exists n, e, p. split; [lia|]. split; [lia|]. split; [exact Hc|]. split; [exact Hk|].
+      split; [exact Hnd|].
+      rewrite !Hag by lia. rewrite !Hagp by lia. rewrite (evalP_agree rho rho' n p Hk) by (intros i Hi; apply Hag; lia).
+      exact H.
+    - right. right. right. right. exists opt, n, e, x0, gamma. split; [lia|]. split; [lia|]. split; [exact Hc|].
+      split; [exact Hk|]. split; [exact Hnd|]. split; [exact Hg|].
+      destruct opt; cbn [ip_np ip_ne ip_meaning] in *;
+        rewrite ?(evalP_agree rho rho' n x0 Hk) by (intros i Hi; apply Hag; lia);
+        rewrite !Hag by lia; rewrite !Hagp by lia; exact H.
   Qed.
 
   Definition CInv (s : mstate) (vs : (nat -> E) * (nat -> R)) : Prop :=
-    forall f c, In (f, c) (m_cons s) -> cons_src (m_np s) (fst vs) c.
+    forall f c, In (f, c) (m_cons s) -> cons_src (m_np s) (m_ne s) (fst vs) (snd vs) c.
 
   Lemma CInv_step s vs o :
     CInv s vs -> op_wf s o = true -> step_ok W o = true -> CInv (mstep s o) (wstep W vs s o).
   Proof.
     intros HI Hwf Hpx f c Hin.
-    destruct (wstep_agree vs s o) as [Hr _]. destruct (mstep_counters s o) as [Hc _].
-    assert (Hold : In (f, c) (m_cons s) -> cons_src (m_np (mstep s o)) (fst (wstep W vs s o)) c).
-    { intros H. exact (cons_src_agree _ _ _ _ c Hc Hr (HI f c H)). }
-    destruct o as [|g p|g|g p gamma|g dir|g p rel eps|g x0 dirs]; cbn [mstep m_cons] in Hin; try (apply Hold, Hin).
+    destruct (wstep_agree vs s o) as [Hr Hrp]. destruct (mstep_counters s o) as [Hc Hce].
+    assert (Hold : In (f, c) (m_cons s) ->
+              cons_src (m_np (mstep s o)) (m_ne (mstep s o)) (fst (wstep W vs s o)) (snd (wstep W vs s o)) c).
+    { intros H. exact (cons_src_agree _ _ _ _ _ _ _ _ c Hc Hce Hr Hrp (HI f c H)). }
+    destruct o as [|g p|g|g p gamma|g dir|g p rel eps|g x0 dirs|g p|h gx0 sx0 gamma|h g sx0 gamma|g x0 gamma opt];
+      cbn [mstep m_cons] in Hin; try (apply Hold, Hin).
     - apply in_app_or in Hin as [Hin|[Heq|[]]]; [apply Hold, Hin|]. injection Heq as <- <-.
       left. exists (m_np s), rel, eps. cbn [mstep m_np]. split; [lia|]. split; [reflexivity|].
       cbn [wstep fst]. rewrite (upd_other _ (S (m_np s)) _ (m_np s)) by lia. rewrite !upd_same.
@@ -429,9 +722,34 @@ Section Method.
         rewrite !upd_same. exact Ho0.
       + apply in_map_iff in Hin as [d [Heq Hd]]. injection Heq as <- <-.
         specialize (Hdirs d Hd). apply andb_prop in Hdirs as [Hkd Hndd].
-        right. right. exists (m_np s), d. cbn [mstep m_np].
+        right. right. left. exists (m_np s), d. cbn [mstep m_np].
         split; [lia|]. split; [reflexivity|]. split; [exact Hkd|]. split; [apply nodupb_NoDup; exact Hndd|].
         rewrite (Hag d Hkd). cbn [wstep fst]. rewrite upd_same. apply Hod. apply in_map. exact Hd.
+    - (* MEpsSub *)
+      cbn [op_wf] in Hwf. apply andb_prop in Hwf as [Hk Hndb].
+      apply in_app_or in Hin as [Hin|[Heq|[]]]; [apply Hold, Hin|]. injection Heq as <- <-.
+      right. right. right. left. exists (m_np s), (m_ne s), p. cbn [mstep m_np m_ne].
+      split; [lia|]. split; [lia|]. split; [reflexivity|]. split; [exact Hk|]. split; [apply nodupb_NoDup; exact Hndb|].
+      rewrite (evalP_agree (fst vs) _ (m_np s) p Hk Hr).
+      cbn [wstep fst snd]. set (x := evalP (fst vs) p). upd_simpl.
+      exact (proj2 (epssub_spec W g x)).
+    - (* MInexactProx *)
+      cbn [op_wf] in Hwf. apply andb_prop in Hwf as [Hwf Hpos]. apply andb_prop in Hwf as [Hk Hndb].
+      pose proof (qpos_pos gamma Hpos) as Hg.
+      set (x0v := evalP (fst vs) x0).
+      pose proof (iprox_spec W g opt (Q2R gamma) x0v Hg) as Hsp. cbn zeta in Hsp.
+      assert (Hx0 : evalP (fst (wstep W vs s (MInexactProx g x0 gamma opt))) x0 = x0v).
+      { apply (evalP_agree (fst vs) _ (m_np s) x0 Hk). exact Hr. }
+      assert (Hin' : In (f, c) (m_cons s) \/ (f, c) = (g, ip_cons opt (m_np s) (m_ne s) x0 gamma)).
+      { destruct opt; cbn [mstep m_cons] in Hin; apply in_app_or in Hin as [Hin|[Heq|[]]]; auto. }
+      destruct Hin' as [Hin'|Heq]; [apply Hold, Hin'|]. injection Heq as -> ->.
+      right. right. right. right. exists opt, (m_np s), (m_ne s), x0, gamma.
+      split; [destruct opt; cbn; lia|]. split; [destruct opt; cbn; lia|]. split; [reflexivity|]. split; [exact Hk|].
+      split; [apply nodupb_NoDup; exact Hndb|]. split; [exact Hg|].
+      destruct opt; cbn [ip_meaning]; rewrite ?Hx0; cbn [wstep fst snd]; fold x0v; upd_simpl.
+      + exact (proj2 (proj2 Hsp)).
+      + exact (proj2 Hsp).
+      + exact (proj2 (proj2 Hsp)).
   Qed.
 
   Theorem world_constraints_inv ops : forall s vs,
@@ -450,7 +768,7 @@ Section Method.
     In (f, c) (m_cons (mrun ops minit)) -> holds (fst (wrun W ops minit vs)) (snd (wrun W ops minit vs)) c.
   Proof.
     intros Hwf Hpx Hin. assert (H0 : CInv minit vs) by (intros ? ? []).
-    exact (cons_src_holds _ _ _ c (world_constraints_inv ops minit vs Hwf Hpx H0 f c Hin)).
+    exact (cons_src_holds _ _ _ _ c (world_constraints_inv ops minit vs Hwf Hpx H0 f c Hin)).
   Qed.
 
   (** Leaves that exist before the run (and free leaves in general) keep the value the initial
